@@ -1,15 +1,18 @@
 /-! PyCore: a pure core of Python — literals, names, tuples, constant indexing, calls of
-single-`return` functions, classes with class attributes, instantiation, attribute access,
-single inheritance, `a if <opaque> else b` — with two interpreters over one skeleton:
+single-`return` functions, classes with class attributes, `__init__` storing `self.a = e`,
+methods, instantiation with arguments, attribute access on instances and classes, bound method
+calls, single inheritance, `a if <opaque> else b` — with two interpreters over one skeleton:
 
 * `evalC` — the concrete semantics (one branch of every conditional, values carry the index of
-  the `def`/`class` statement that created them).  The fragment has no mutation, so the value
-  of a name is the value of the right-hand side of its (single) binding statement; `evalC`
+  the `def`/`class` statement that created them; an instance remembers its constructor
+  arguments).  The fragment has no mutation after construction, so the value of a name or of an
+  instance attribute is the value of the right-hand side of its binding statement; `evalC`
   re-evaluates it on demand.  Validated against CPython by the harness on every run.
 * `mayE` — jedi's set-valued inference (`infer_node`, `tree_name_to_values`, `infer_expr_stmt`,
-  `check_tuple_assignments`, `infer_trailer`, function execution with argument-bound parameters,
-  class/instance attribute filters along the base chain): both arms of a conditional, last
-  definition before the position at module level, no position limit from inside a function.
+  `check_tuple_assignments`, `infer_trailer`, function/method execution with argument-bound
+  parameters, `SelfAttributeFilter` + class filters along the base chain): both arms of a
+  conditional, last definition before the position at module level, no position limit from
+  inside a function.
 
 Both are fuel-indexed with identical recursion structure. -/
 namespace JediModel.PyCore
@@ -17,6 +20,7 @@ namespace JediModel.PyCore
 inductive Expr where
   | int | str
   | name (x : Nat)
+  | self                              -- the first parameter of a method
   | tuple (es : List Expr)
   | index (e : Expr) (k : Nat)
   | call (f : Expr) (args : List Expr)
@@ -24,11 +28,25 @@ inductive Expr where
   | tern (c : Bool) (a b : Expr)     -- `a if <opaque> else b`; `c` = the branch the run takes
 deriving Repr
 
+/-- `def __init__(self, params): self.a1 = e1; ...` -/
+structure Init where
+  params : List Nat
+  assigns : List (Nat × Expr)
+deriving Repr
+
+/-- `def m(self, params): return ret` -/
+structure Method where
+  name : Nat
+  params : List Nat
+  ret : Expr
+deriving Repr
+
 inductive Stmt where
   | assign (x : Nat) (e : Expr)
   | unpack (xs : List Nat) (e : Expr)
   | defn (f : Nat) (params : List Nat) (ret : Expr)
-  | klass (c : Nat) (base : Option Nat) (attrs : List (Nat × Expr))
+  | klass (c : Nat) (base : Option Nat) (attrs : List (Nat × Expr)) (init : Option Init)
+      (methods : List Method)
   | probe (e : Expr)
 deriving Repr
 
@@ -45,7 +63,7 @@ def Stmt.binds (s : Stmt) (x : Nat) : Bool :=
   | .assign y _ => y == x
   | .unpack ys _ => ys.contains x
   | .defn f _ _ => f == x
-  | .klass c _ _ => c == x
+  | .klass c _ _ _ _ => c == x
   | .probe _ => false
 
 /-- the last statement before position `lim` that binds `x` (jedi: last reachable definition
@@ -53,9 +71,25 @@ before the position; Python: the binding that is in effect) -/
 def lastBinder (p : Prog) (x lim : Nat) : Option Nat :=
   ((p.take lim).zipIdx.filter fun (s, _) => s.binds x).getLast?.map (·.2)
 
-/-- the last assignment to attribute `a` in a class body -/
+/-- the last assignment to attribute `a` in a class body / an `__init__` body -/
 def lastAttr (attrs : List (Nat × Expr)) (a : Nat) : Option Expr :=
   ((attrs.filter fun ae => ae.1 == a).getLast?).map (·.2)
+
+/-- every assignment to attribute `a` (jedi's `SelfAttributeFilter` reports them all) -/
+def allAttr (attrs : List (Nat × Expr)) (a : Nat) : List Expr :=
+  (attrs.filter fun ae => ae.1 == a).map (·.2)
+
+def findMethod (ms : List Method) (a : Nat) : Option Method :=
+  (ms.filter fun m => m.name == a).getLast?
+
+/-- parameters of the function a method context executes: `m = none` is `__init__` -/
+def methodParams (p : Prog) (cid : Nat) (m : Option Nat) : Option (List Nat) :=
+  match p[cid]? with
+  | some (.klass _ _ _ init methods) =>
+    match m with
+    | none => init.map (·.params)
+    | some a => (findMethod methods a).map (·.params)
+  | _ => none
 
 /-! ## concrete -/
 
@@ -64,14 +98,16 @@ inductive Val where
   | tuple (vs : List Val)
   | func (id : Nat)
   | cls (id : Nat)
-  | inst (id : Nat)
+  | inst (id : Nat) (args : List Val)
+  | bound (recv : Val) (cid : Nat) (m : Nat)     -- bound method `recv.m`, defined in class `cid`
 deriving Repr
 
-/-- evaluation context: module level at a statement position, or the body of function `id`
-with its arguments -/
+/-- evaluation context: module level at a statement position, the body of function `id`, or the
+body of a method (`m = none`: `__init__`) of class `cid` with `self` and its arguments -/
 inductive CtxC where
   | module (pos : Nat)
   | func (id : Nat) (args : List Val)
+  | meth (cid : Nat) (m : Option Nat) (self : Val) (args : List Val)
 
 def mapOpt {α β} (f : α → Option β) : List α → Option (List β)
   | [] => some []
@@ -79,6 +115,12 @@ def mapOpt {α β} (f : α → Option β) : List α → Option (List β)
     match f a, mapOpt f as with
     | some b, some bs => some (b :: bs)
     | _, _ => none
+
+/-- outcome of looking for an instance attribute -/
+inductive Found (α : Type) where
+  | found (v : α)
+  | missing          -- not an instance attribute: go on with the class
+  | error
 
 mutual
 /-- value of expression `e` in context `ctx` -/
@@ -98,6 +140,17 @@ def evalC (p : Prog) : Nat → CtxC → Expr → Option Val
           | some i => args[i]?
           | none => nameC p fuel x p.length
         | _ => none
+      | .meth cid m _ args =>
+        match methodParams p cid m with
+        | some params =>
+          match indexOf params x with
+          | some i => args[i]?
+          | none => nameC p fuel x p.length
+        | none => none
+    | .self =>
+      match ctx with
+      | .meth _ _ s _ => some s
+      | _ => none
     | .tuple es => (mapOpt (evalC p fuel ctx) es).map .tuple
     | .index e k =>
       match evalC p fuel ctx e with
@@ -110,14 +163,32 @@ def evalC (p : Prog) : Nat → CtxC → Expr → Option Val
         | some (.defn _ params ret) =>
           if params.length = vs.length then evalC p fuel (.func id vs) ret else none
         | _ => none
-      | some (.cls id), some vs => if vs.isEmpty then some (.inst id) else none
+      | some (.cls id), some vs =>
+        -- `__init__` of the first class in the chain that defines one must accept the arguments
+        match initArityC p fuel id with
+        | some n => if n = vs.length then some (.inst id vs) else none
+        | none => none
+      | some (.bound recv cid m), some vs =>
+        match p[cid]? with
+        | some (.klass _ _ _ _ methods) =>
+          match findMethod methods m with
+          | some md =>
+            if md.params.length = vs.length then evalC p fuel (.meth cid (some m) recv vs) md.ret
+            else none
+          | none => none
+        | _ => none
       | _, _ => none
     | .attr e a =>
       match evalC p fuel ctx e with
-      | some (.inst id) => attrC p fuel id a
-      | some (.cls id) => attrC p fuel id a
+      | some (.inst id args) =>
+        match selfAttrC p fuel id (.inst id args) args a with
+        | .found v => some v
+        | .missing => attrC p fuel (some (.inst id args)) id a
+        | .error => none
+      | some (.cls id) => attrC p fuel none id a
       | _ => none
     | .tern c a b => if c then evalC p fuel ctx a else evalC p fuel ctx b
+termination_by structural n _ _ => n
 
 /-- value of module-level name `x` seen from statement position `lim` -/
 def nameC (p : Prog) : Nat → Nat → Nat → Option Val
@@ -133,25 +204,76 @@ def nameC (p : Prog) : Nat → Nat → Nat → Option Val
         | some (.tuple vs), some i => if vs.length = xs.length then vs[i]? else none
         | _, _ => none
       | some (.defn _ _ _) => some (.func j)
-      | some (.klass _ _ _) => some (.cls j)
+      | some (.klass _ _ _ _ _) => some (.cls j)
       | _ => none
+termination_by structural n _ _ => n
 
-/-- attribute `a` of class `id` (own body, then the base class) -/
-def attrC (p : Prog) : Nat → Nat → Nat → Option Val
-  | 0, _, _ => none
-  | fuel + 1, id, a =>
+/-- number of parameters (besides `self`) of the `__init__` that runs for class `id`:
+the first one found along the base chain, 0 when there is none (`object.__init__`) -/
+def initArityC (p : Prog) : Nat → Nat → Option Nat
+  | 0, _ => none
+  | fuel + 1, id =>
     match p[id]? with
-    | some (.klass _ base attrs) =>
+    | some (.klass _ base _ init _) =>
+      match init with
+      | some i => some i.params.length
+      | none =>
+        match base with
+        | none => some 0
+        | some b =>
+          match nameC p fuel b id with
+          | some (.cls bid) => initArityC p fuel bid
+          | _ => none
+    | _ => none
+termination_by structural n _ => n
+
+/-- instance attribute `a` of an instance of class `id`: only the `__init__` that runs — the
+first one along the base chain — fills the instance dict -/
+def selfAttrC (p : Prog) : Nat → Nat → Val → List Val → Nat → Found Val
+  | 0, _, _, _, _ => .error
+  | fuel + 1, id, selfv, args, a =>
+    match p[id]? with
+    | some (.klass _ base _ init _) =>
+      match init with
+      | some i =>
+        match lastAttr i.assigns a with
+        | some e =>
+          match evalC p fuel (.meth id none selfv args) e with
+          | some v => .found v
+          | none => .error
+        | none => .missing
+      | none =>
+        match base with
+        | none => .missing
+        | some b =>
+          match nameC p fuel b id with
+          | some (.cls bid) => selfAttrC p fuel bid selfv args a
+          | _ => .error
+    | _ => .error
+termination_by structural n _ _ _ _ => n
+
+/-- attribute `a` looked up on class `id` (own body, then the base class); a method found for
+an instance receiver is bound to it -/
+def attrC (p : Prog) : Nat → Option Val → Nat → Nat → Option Val
+  | 0, _, _, _ => none
+  | fuel + 1, recv, id, a =>
+    match p[id]? with
+    | some (.klass _ base attrs _ methods) =>
       match lastAttr attrs a with
       | some e => evalC p fuel (.module id) e
       | none =>
-        match base with
-        | none => none
-        | some b =>
-          match nameC p fuel b id with
-          | some (.cls bid) => attrC p fuel bid a
-          | _ => none
+        match findMethod methods a, recv with
+        | some _, some r => some (.bound r id a)
+        | some _, none => none       -- `C.m` (plain function object): outside the fragment
+        | none, _ =>
+          match base with
+          | none => none
+          | some b =>
+            match nameC p fuel b id with
+            | some (.cls bid) => attrC p fuel recv bid a
+            | _ => none
     | _ => none
+termination_by structural n _ _ _ => n
 end
 
 /-! ## jedi -/
@@ -161,12 +283,22 @@ inductive Shape where
   | tuple (elems : List (List Shape))
   | func (id : Nat)
   | cls (id : Nat)
-  | inst (id : Nat)
+  | inst (id : Nat) (args : List (List Shape))
+  | bound (recv : Shape) (cid : Nat) (m : Nat)
 deriving Repr
 
 inductive CtxA where
   | module (pos : Nat)
   | func (id : Nat) (args : List (List Shape))
+  | meth (cid : Nat) (m : Option Nat) (self : Shape) (args : List (List Shape))
+
+/-- first candidate that yields something -/
+def firstSome {α β} (f : α → Option β) : List α → Option β
+  | [] => none
+  | a :: as =>
+    match f a with
+    | some b => some b
+    | none => firstSome f as
 
 mutual
 def mayE (p : Prog) : Nat → CtxA → Expr → List Shape
@@ -185,6 +317,17 @@ def mayE (p : Prog) : Nat → CtxA → Expr → List Shape
           | some i => (args[i]?).getD []
           | none => nameA p fuel x p.length
         | _ => []
+      | .meth cid m _ args =>
+        match methodParams p cid m with
+        | some params =>
+          match indexOf params x with
+          | some i => (args[i]?).getD []
+          | none => nameA p fuel x p.length
+        | none => []
+    | .self =>
+      match ctx with
+      | .meth _ _ s _ => [s]
+      | _ => []
     | .tuple es => [.tuple (es.map (mayE p fuel ctx))]
     | .index e k =>
       (mayE p fuel ctx e).flatMap fun s =>
@@ -198,22 +341,32 @@ def mayE (p : Prog) : Nat → CtxA → Expr → List Shape
         | .cls id => [.cls id]      -- `C[0]`: jedi treats a subscripted class as the class (generics)
         | _ => []
     | .call f args =>
-      let as := args.map (mayE p fuel ctx)
       (mayE p fuel ctx f).flatMap fun s =>
         match s with
         | .func id =>
           match p[id]? with
-          | some (.defn _ _ ret) => mayE p fuel (.func id as) ret
+          | some (.defn _ _ ret) => mayE p fuel (.func id (args.map (mayE p fuel ctx))) ret
           | _ => []
-        | .cls id => [.inst id]
+        | .cls id => [.inst id (args.map (mayE p fuel ctx))]
+        | .bound recv cid m =>
+          match p[cid]? with
+          | some (.klass _ _ _ _ methods) =>
+            match findMethod methods m with
+            | some md => mayE p fuel (.meth cid (some m) recv (args.map (mayE p fuel ctx))) md.ret
+            | none => []
+          | _ => []
         | _ => []
     | .attr e a =>
       (mayE p fuel ctx e).flatMap fun s =>
         match s with
-        | .inst id => attrA p fuel id a
-        | .cls id => attrA p fuel id a
+        | .inst id args =>
+          match selfAttrA p fuel id (.inst id args) args a with
+          | some r => r
+          | none => attrA p fuel (some (.inst id args)) id a
+        | .cls id => attrA p fuel none id a
         | _ => []
     | .tern _ a b => mayE p fuel ctx a ++ mayE p fuel ctx b
+termination_by structural n _ _ => n
 
 def nameA (p : Prog) : Nat → Nat → Nat → List Shape
   | 0, _, _ => []
@@ -232,25 +385,56 @@ def nameA (p : Prog) : Nat → Nat → Nat → List Shape
             | _ => []
         | none => []
       | some (.defn _ _ _) => [.func j]
-      | some (.klass _ _ _) => [.cls j]
+      | some (.klass _ _ _ _ _) => [.cls j]
       | _ => []
+termination_by structural n _ _ => n
 
-def attrA (p : Prog) : Nat → Nat → Nat → List Shape
-  | 0, _, _ => []
-  | fuel + 1, id, a =>
+/-- `SelfAttributeFilter` along the MRO: the first class whose `__init__` assigns `self.a`
+(whether or not that `__init__` is the one Python runs), the union over all its assignments
+to `self.a` (not only the last); `none` = no class has it -/
+def selfAttrA (p : Prog) : Nat → Nat → Shape → List (List Shape) → Nat → Option (List Shape)
+  | 0, _, _, _, _ => none
+  | fuel + 1, id, selfs, args, a =>
     match p[id]? with
-    | some (.klass _ base attrs) =>
+    | some (.klass _ base _ init _) =>
+      match (match init with
+             | some i => allAttr i.assigns a
+             | none => []) with
+      | e :: es => some ((e :: es).flatMap (mayE p fuel (.meth id none selfs args)))
+      | [] =>
+        match base with
+        | none => none
+        | some b =>
+          -- the base name denotes one class in SSA programs; with several candidates jedi
+          -- takes the first that has the attribute
+          firstSome (fun s =>
+            match s with
+            | .cls bid => selfAttrA p fuel bid selfs args a
+            | _ => none) (nameA p fuel b id)
+    | _ => none
+termination_by structural n _ _ _ _ => n
+
+def attrA (p : Prog) : Nat → Option Shape → Nat → Nat → List Shape
+  | 0, _, _, _ => []
+  | fuel + 1, recv, id, a =>
+    match p[id]? with
+    | some (.klass _ base attrs _ methods) =>
       match lastAttr attrs a with
       | some e => mayE p fuel (.module id) e
       | none =>
-        match base with
-        | none => []
-        | some b =>
-          (nameA p fuel b id).flatMap fun s =>
-            match s with
-            | .cls bid => attrA p fuel bid a
-            | _ => []
+        match findMethod methods a, recv with
+        | some _, some r => [.bound r id a]
+        | some _, none => []
+        | none, _ =>
+          match base with
+          | none => []
+          | some b =>
+            (nameA p fuel b id).flatMap fun s =>
+              match s with
+              | .cls bid => attrA p fuel recv bid a
+              | _ => []
     | _ => []
+termination_by structural n _ _ _ => n
 end
 
 /-- the probes of a program, in order, with the statement position they sit at -/
